@@ -219,6 +219,9 @@ def run(ctx):
                 ctx.fail("C11-R5", cr.path, "fill value", "masked-out frames are filled with %s, expected the NODATA constant" % show(d), cm.loc_of(t["span"]))
         if okf:
             ctx.ok("C11-R5", "masked-out frames are filled with constants::NODATA", cr.loc())
+            # ... on every path: no return of create() skips the fill
+            from .c05 import no_early_return
+            no_early_return(ctx, p, cr, "C11-R5")
         elif not fills:
             ctx.fail("C11-R5", cr.path, "fill", "Mask::fill is not called", cr.loc())
     fb = p.body("mlpg_adjust::mask::Mask::fill::{closure#0}")
